@@ -63,6 +63,9 @@ func runC19(r *Run) {
 	if want("clean") {
 		c19Clean(r)
 	}
+	if want("http.stale") {
+		c19HttpStale(r)
+	}
 }
 
 // ---------------------------------------------------------------------------
